@@ -1,6 +1,7 @@
 From Coq Require Extraction.
 From Coq Require Import ExtrOcamlBasic.
 From Tickit Require Import RectDefs RBDefs RBSpec RBCopyDefs RBCopySpec.
-Extraction "mC13.ml" rb_new step a_new astep dump_checkb api_of abs_rb wf_rbb ast_eqb aux_eqb
+From Tickit Require PenDefs.
+Extraction "mC13.ml" rb_new pget pen_build pen_empty PenDefs.attr_type step a_new astep dump_checkb api_of abs_rb wf_rbb ast_eqb aux_eqb
   grapheme_at cpw text_valid text_width
   copyrect_op moverect_op blit a_copyrect a_moverect a_blit dump_disp_checkb ast_disp_eqb.
